@@ -47,15 +47,15 @@ def judge(case, raw, cmpr, model):
         if d.get('CRASH') == 'exit3' or (len(d) <= 1 and 'CRASH' in d):
             return [('gen:rejected', 'harness could not interpret the description')]
         if 'CRASH' in d:
-            last = [k for k in d if k != 'CRASH'][-1]
-            # crashes of the text writer / scanner belong to C10
-            if last in ('build',) or (last in ('T0',) and 'W1' not in d):
-                stage = 'output' if last == 'build' else 'write'
-            else:
-                stage = 'after-' + last
-            if stage != 'output' and not last.startswith(('SC', 'T2', 'T3')):
-                bad.append(('crash:' + stage, '%s build: crash (%s) after field %s' % (tag, d['CRASH'], last)))
-            continue
+            # the harness announces every stage (field @): a crash belongs to the stage that was running.  Crashes of
+            # the text writer on the original / of the scanner belong to C10, crashes while executing the original
+            # context are the generator's problem.
+            st = d.get('@', 'output')
+            if st in ('write', 'write2', 'read', 'output-after-read', 'rewrite', 'exec-after-read', 'probe-after-read'):
+                bad.append(('crash:' + st, '%s build: crash (%s) in stage %s' % (tag, d['CRASH'], st)))
+                continue
+            if st in ('output', 'exec-original'):
+                continue
         w1 = d.get('W1', '')
         if w1.startswith('ERR'):
             if model.get('W1') != 'ERR':
@@ -69,6 +69,8 @@ def judge(case, raw, cmpr, model):
             continue
         if d.get('T1') != '=':
             bad.append(('text-differs-after-read', '%s: MIR_output differs after the binary round trip' % tag))
+        if d.get('RW', '=') != '=':
+            bad.append(('rewrite-differs-after-read', '%s: the context read back serialises to different bytes than it was read from' % tag))
         if 'X0' in d and d.get('X1') != d.get('X0'):
             bad.append(('exec-differs-after-read', '%s: execution differs after the binary round trip: %s vs %s' % (tag, d.get('X0'), d.get('X1'))))
         # temp-name counters restored from reserved names: the next generated temporary names must be unused
@@ -206,7 +208,7 @@ def replay(chk, path):
     r1, r2, rm = run_cases(chk, exes, [case])
     bad = judge(case, r1[0], r2[0], rm[0])
     print('case:', case)
-    for k in ('build', 'W2', 'RB', 'T1', 'TN1', 'TR1', 'X0', 'X1', 'FR0', 'FR1', 'CRASH'):
+    for k in ('build', 'W2', 'RB', 'T1', 'RW', 'TN1', 'TR1', 'X0', 'X1', 'FR0', 'FR1', 'CRASH'):
         print('  raw.%s = %s   compressed.%s = %s' % (k, r1[0].get(k, '-')[:100], k, r2[0].get(k, '-')[:100]))
     for s, w in bad:
         print('FAIL', s, w)
